@@ -127,6 +127,8 @@ def step (cb : Cbs) (s : St) : Step :=
   else match s.rest with
     | b0 :: mk :: hi :: lo :: _ =>
       if b0 != 0xFF then finish (discard s (firstFF 64 s.rest)) []
+      -- repaired (fix: commit): a fill byte - any marker may be preceded by any number of 0xFF bytes - is skipped
+      else if mk == 0xFF then finish (discard s 1) []
       else if mk == 0xD8 then finish (discard { s with pos := (s.pos + 1) % 256 } 2) []
       else if s.pos = 0 then
         -- repaired (fix: commit): a marker outside any image is skipped (the pinned tree looped here forever)
